@@ -173,6 +173,21 @@ func c04Body(d c04Desc, tier string) func() {
 				return
 			}
 		}
+		// a second registration under a name already taken is refused and changes nothing about the routing below
+		var dupLog []string
+		for i, n := range d.Set {
+			if i%2 == 0 {
+				if err := s.RegisterInterface(&echoDisp{name: n, log: &dupLog}); err == nil {
+					st.fail = "a second registration of " + n + " was accepted"
+					return
+				}
+			}
+		}
+		defer func() {
+			if len(dupLog) != 0 && st.fail == "" {
+				st.fail = fmt.Sprintf("calls reached a dispatcher whose registration was refused: %v", dupLog)
+			}
+		}()
 		w.S = s
 		w.Ctx = vnet.NewCtx("serve")
 		l := vnet.NewListener("L0")
